@@ -248,14 +248,15 @@ def sigEntry (H : Bytes → Bytes) (s : State) (subject : Bytes) : Bool × List 
 
 /-- Only a vote on `id` changes the vote ledger entry `id`; only a signature on the subject changes its entry. -/
 theorem votes_sigs_frame (H : Bytes → Bytes) (s : State) (op : Op) (id : Bytes)
-    (hv : ∀ a, op ≠ .vote id a) : alGet (step H s op).votes id = alGet s.votes id := by
+    (hv : ∀ a, op ≠ .vote id a) (hd : ∀ sg r c cc, op ≠ .deposit sg r c id cc) :
+    alGet (step H s op).votes id = alGet s.votes id := by
   apply step_preserves H (fun t => alGet t.votes id = alGet s.votes id) s op
   · intro t x ht; exact ht
   · intro o ho _
     cases op <;> plan_cases ho
     all_goals try rfl
     all_goals try (rename_i hcd; rw [commit_frame hcd]; done)
-    all_goals (simp only; rw [alGet_put_ne]; intro e; subst e; exact hv _ rfl)
+    all_goals (simp only; rw [alGet_put_ne]; intro e; subst e; first | exact hv _ rfl | exact hd _ _ _ _ rfl)
   · intro ap hap s1 s2 n _ hs1 hf
     cases op <;> plan_cases hap
     all_goals (dsimp only at hf)
